@@ -27,7 +27,8 @@ inductive Ref | self | next | parent | loc
 (`x = body` included), `attr r x` is `${r.attr.x}`, `args` writes the page arguments received by the enclosing
 body (`[${a} ${b} ${list(pageargs.items())}]`), `defn` is `<%def name="n(a, b=3)">` (parameters with optional defaults), `block` is `<%block [name=…]>`
 on source line `line`, `callTag` is `<%call expr="zcall()">…</%call>` / `<%self:zcall>…</%self:zcall>` where `zcall`
-is a def consisting of `${caller.body()}` (a call with content whose callee writes the content exactly once). -/
+is a def consisting of `${caller.body()}` (a call with content whose callee writes the content exactly once),
+`incl k` is `<%include file="…"/>` of the first template of entry `k` of the template library (see `renderLib`). -/
 inductive Node where
   | text (k : Nat)
   | call (r : Ref) (x : Name) (pos : List Val) (kw : List (Name × Val))
@@ -36,6 +37,7 @@ inductive Node where
   | defn (name : Name) (params : List (Name × Option Val)) (kids : List Node)
   | block (name : Option Name) (line : Nat) (kids : List Node)
   | callTag (kids : List Node)
+  | incl (k : Nat)
 
 /-- `<%inherit file=…/>`: absent, a literal, an expression evaluating to the next template of the chain, or an
 expression evaluating to `None` (`_inherit_from` then returns `None`). -/
@@ -259,12 +261,23 @@ def Ctx.get (c : Ctx) : Ref → Option Nat
   | .parent => c.parent
   | .loc => c.loc
 
+inductive Out
+  | text (k : Nat)
+  | val (v : Val)
+  | args (bound : List (Name × Val)) (extra : List (Name × Val))
+  deriving DecidableEq, Repr
+
+abbrev Res := Except Exc (List Out)
+
 /-- how names are resolved while code runs: the namespace a context binds `self/next/parent/local` to,
 attribute access on a namespace, `.attr` access on a namespace -/
 structure Dispatch where
   ref : Nat → Ref → Option Nat
   getattr : Nat → Name → Lookup
   attr : Nat → Name → Option Val
+  /-- what `<%include>` of library entry `k` writes (`runtime._include_file`); a lookup that holds only the chain
+  itself answers TemplateLookupException -/
+  inc : Nat → Res := fun _ => .error .lookup
 
 /-- the dispatch the real runtime performs on the heap -/
 def heapDispatch (c : List Level) (h : Heap) : Dispatch where
@@ -305,13 +318,6 @@ def bind (params : List (Name × Option Val)) (varkw : Bool) (pos : List Val) (k
 
 /-! ## running template code -/
 
-inductive Out
-  | text (k : Nat)
-  | val (v : Val)
-  | args (bound : List (Name × Val)) (extra : List (Name × Val))
-  deriving DecidableEq, Repr
-
-abbrev Res := Except Exc (List Out)
 
 /-- where code runs: the template whose code it is, the context it was handed, the page arguments in scope -/
 structure Env where
@@ -387,6 +393,7 @@ def step (c : List Level) (D : Dispatch) (run : Env → List Node → Res) (env 
   | .text k => .ok [.text k]
   | .args => .ok [.args env.bound (env.pageargs.getD [])]
   | .defn _ _ _ => .ok []
+  | .incl k => D.inc k                                -- not a function of `env`: see `renderIn`
   | .callTag kids => run env kids                        -- the callee writes `caller.body()` once: the content runs here,
                                                        -- as a closure of the enclosing code (same context)
   | .attr r x =>
@@ -603,5 +610,36 @@ def render (c : List Level) (fuel : Nat) (data : List (Name × Val)) : Res :=
       | .error e => .error e
       | .ok (h, (t, cx)) =>
         invoke c (exec c (heapDispatch c h) fuel) (.member t cx) bodyName [] data
+
+/-- `render` with `<%include>` answered by `inc`.  `runtime._include_file` hands the included template
+`context._clean_inheritance_tokens()` - a copy of the including context without `self`, `parent`, `next` - and
+`_populate_self_namespace` sets `self` and `local` afresh: the included template (and the chain it inherits from)
+is rendered exactly like a top-level template, on a heap of its own, its base-most body first; nothing of the
+includer's chain is visible through `self/next/parent/local`.  (Regenerated facts: `Generated.NsAttrs.cleanPops`,
+`includeUsesCleanContext`, `populateSetsSelfLocal`.) -/
+def renderIn (inc : Nat → Res) (c : List Level) (fuel : Nat) (data : List (Name × Val)) : Res :=
+  match c with
+  | [] => .error .lookup
+  | t0 :: _ =>
+    if !(check t0.nodes).isEmpty then .error .compile
+    else match populateSelf c with
+      | .error e => .error e
+      | .ok (h, (t, cx)) =>
+        invoke c (exec c { heapDispatch c h with inc := inc } fuel) (.member t cx) bodyName [] data
+
+/-- `<%include>` of entry `k` of a library of chains (`depth` bounds the nesting of includes; exhaustion =
+`recursion`); an included body receives no arguments -/
+def renderLib (lib : List (List Level)) (fuel : Nat) : Nat → Nat → Res
+  | 0, _ => .error .recursion
+  | d + 1, k =>
+    match lib[k]? with
+    | none => .error .lookup
+    | some c => renderIn (renderLib lib fuel d) c fuel []
+
+/-- `lookup.get_template(<first template of entry 0>).render(**data)` in a lookup that holds the library -/
+def renderTop (lib : List (List Level)) (depth fuel : Nat) (data : List (Name × Val)) : Res :=
+  match lib[0]? with
+  | none => .error .lookup
+  | some c => renderIn (renderLib lib fuel depth) c fuel data
 
 end MakoModel.Inherit
